@@ -20,7 +20,12 @@
    receive_stream.receive() that is modelled is feed_data(): `Until d m fs` carries, for each fetch the call makes, the
    data fed during that wait (fs = feeds in fetch order, missing = none); it is appended to the buffer before the
    fetched chunk, also when the fetch ends in EndOfStream.  (A concurrent second reader shrinking the buffer is not
-   modelled.)  Every step also returns the ARRIVAL LOG: the bytes that entered the wrapper during the call, in order
+   modelled.)  CANCELLATION: the C-ops run the call in a cancel scope; k = 0: the call is cancelled at entry, before it
+   touched anything (what any implementation that checkpoints first does in an already cancelled scope; HEAD has no
+   such checkpoint, the harness uses k = 0 only when the implementation was observed to behave so); k >= 1: the k-th
+   fetch from the wrapped stream - the only place where HEAD waits - raises the cancellation (k = 1 is also what an
+   already cancelled scope does to HEAD).  A cancelled call returns RCancelled; what earlier fetches of the same call
+   brought in stays in the buffer.  Every step also returns the ARRIVAL LOG: the bytes that entered the wrapper during the call, in order
    (fed data and chunks read); theorem arrival_log_spec pins it to the environment (fetch_arrivals / src).
    aclose()/_closed is outside C16 and not modelled. *)
 From AV Require Import Base.
@@ -33,7 +38,10 @@ Inductive op :=
 | Receive (n : Z)                                   (* await s.receive(n) *)
 | Exactly (n : Z)                                   (* await s.receive_exactly(n) *)
 | Until (d : list Z) (m : Z) (fs : list (list Z))   (* await s.receive_until(d, m); fs = feed_data during its waits *)
-| Feed (d : list Z).                                (* s.feed_data(d) between calls *)
+| Feed (d : list Z)                                 (* s.feed_data(d) between calls *)
+| CReceive (k : nat) (n : Z)                        (* the same calls in a scope that is cancelled: see above *)
+| CExactly (k : nat) (n : Z)
+| CUntil (k : nat) (d : list Z) (m : Z) (fs : list (list Z)).
 
 Inductive res :=
 | RBytes (b : list Z)
@@ -42,6 +50,7 @@ Inductive res :=
 | RNotFound       (* DelimiterNotFound *)
 | RValueError     (* ValueError *)
 | RNone           (* feed_data returns None *)
+| RCancelled      (* the cancellation exception of the enclosing scope propagated out of the call *)
 | RFuel.          (* loop bound of the model exhausted: proved impossible (step_never_out_of_fuel) *)
 
 (* default max_bytes of ByteReceiveStream.receive() *)
@@ -58,34 +67,50 @@ Definition pull (k : kind) (n : nat) (s : list (list Z)) : option (list Z * list
       end
   end.
 
+(* cn = number (from now) of the fetch that is cancelled, 0 = none *)
+Definition hit (cn : nat) : bool := Nat.eqb cn 1.
+
+Inductive fres :=
+| FGot (c : list Z) (r : list (list Z))
+| FEnd                                  (* EndOfStream *)
+| FCancel (r : list (list Z)).          (* cancelled while waiting; r = what the wrapped stream still holds *)
+
 (* HEAD, object stream branch of receive(): `chunk = b""; while not chunk: chunk = await receive_stream.receive()` *)
-Fixpoint skip_empty (s : list (list Z)) : option (list Z * list (list Z)) :=
+Fixpoint skip_empty (cn : nat) (s : list (list Z)) : fres :=
+  if hit cn then FCancel s else
   match s with
-  | [] => None
-  | c :: r => match c with [] => skip_empty r | _ :: _ => Some (c, r) end
+  | [] => FEnd
+  | c :: r => match c with [] => skip_empty (pred cn) r | _ :: _ => FGot c r end
   end.
+
+(* the pinned tree: a single receive() *)
+Definition one_item (cn : nat) (s : list (list Z)) : fres :=
+  if hit cn then FCancel s else
+  match s with [] => FEnd | c :: r => FGot c r end.
 
 (* Python slice bound: b[:n] = firstn (cut n b) b and `del b[:n]` leaves skipn (cut n b) b, also for n < 0 *)
 Definition cut (n : Z) (l : list Z) : nat :=
   if (0 <=? n)%Z then Z.to_nat n else Z.to_nat (Z.of_nat (length l) + n).
 
 (* ---- receive (lines 67-95).  Result: new state, outcome, arrival log ---- *)
-Definition do_receive (p : bool) (s : st) (n : Z) : st * res * list Z :=
+Definition do_receive (p : bool) (cn : nat) (s : st) (n : Z) : st * res * list Z :=
   if (n <? 1)%Z then (s, RValueError, []) else
   match buf s with
-  | _ :: _ =>
+  | _ :: _ =>                                            (* served from the buffer: no await at all *)
       (mk (knd s) (skipn (Z.to_nat n) (buf s)) (src s), RBytes (firstn (Z.to_nat n) (buf s)), [])
   | [] =>
       match knd s with
       | KByte =>
+          if hit cn then (s, RCancelled, []) else
           match pull KByte (Z.to_nat n) (src s) with
           | None => (s, REnd, [])
           | Some (c, r) => (mk (knd s) (buf s) r, RBytes c, c)
           end
       | KObject =>
-          match (if p then pull KObject default_max (src s) else skip_empty (src s)) with
-          | None => (mk (knd s) (buf s) [], REnd, [])       (* every (empty) item left was consumed *)
-          | Some (c, r) =>
+          match (if p then one_item cn (src s) else skip_empty cn (src s)) with
+          | FEnd => (mk (knd s) (buf s) [], REnd, [])       (* every (empty) item left was consumed *)
+          | FCancel r => (mk (knd s) (buf s) r, RCancelled, [])
+          | FGot c r =>
               if (n <? Z.of_nat (length c))%Z
               then (mk (knd s) (buf s ++ skipn (Z.to_nat n) c) r, RBytes (firstn (Z.to_nat n) c), c)
               else (mk (knd s) (buf s) r, RBytes c, c)
@@ -94,18 +119,19 @@ Definition do_receive (p : bool) (s : st) (n : Z) : st * res * list Z :=
   end.
 
 (* ---- receive_exactly (lines 97-125): one loop iteration per unit of fuel ---- *)
-Fixpoint exactly_loop (fuel : nat) (s : st) (n : Z) : st * res * list Z :=
+Fixpoint exactly_loop (fuel : nat) (cn : nat) (s : st) (n : Z) : st * res * list Z :=
   match fuel with
   | O => (s, RFuel, [])
   | S f =>
       let remaining := (n - Z.of_nat (length (buf s)))%Z in
       if (remaining <=? 0)%Z then
         (mk (knd s) (skipn (cut n (buf s)) (buf s)) (src s), RBytes (firstn (cut n (buf s)) (buf s)), [])
+      else if hit cn then (s, RCancelled, [])            (* what earlier fetches brought in stays buffered *)
       else
         match pull (knd s) (match knd s with KByte => Z.to_nat remaining | KObject => default_max end) (src s) with
         | None => (s, RIncomplete, [])
         | Some (c, r) =>
-            let '(s', out, lg) := exactly_loop f (mk (knd s) (buf s ++ c) r) n in (s', out, c ++ lg)
+            let '(s', out, lg) := exactly_loop f (pred cn) (mk (knd s) (buf s ++ c) r) n in (s', out, c ++ lg)
         end
   end.
 
@@ -113,9 +139,9 @@ Fixpoint exactly_loop (fuel : nat) (s : st) (n : Z) : st * res * list Z :=
 Definition measure (l : list (list Z)) : nat := length l + length (concat l).
 Definition fuel_of (s : st) : nat := S (measure (src s)).
 
-Definition do_exactly (p : bool) (s : st) (n : Z) : st * res * list Z :=
+Definition do_exactly (p : bool) (cn : nat) (s : st) (n : Z) : st * res * list Z :=
   if negb p && (n <? 0)%Z then (s, RValueError, [])      (* HEAD: ValueError("nbytes must not be negative") *)
-  else exactly_loop (fuel_of s) s n.
+  else exactly_loop (fuel_of s) cn s n.
 
 (* ---- bytearray.find(d, off): lowest i >= off with b[i:i+|d|] == d ---- *)
 Fixpoint prefixb (d l : list Z) : bool :=
@@ -138,7 +164,7 @@ Definition find_from (d : list Z) (off : nat) (l : list Z) : option nat :=
 (* ---- receive_until (lines 127-172); `off` is the local variable `offset`.  HEAD remembers
         searched_size = len(buffer) BEFORE the await and derives the offset from it; the pinned tree used len(buffer)
         AFTER the await, i.e. including what was fed meanwhile ---- *)
-Fixpoint until_loop (p : bool) (fuel : nat) (s : st) (d : list Z) (m : Z) (off : nat) (fs : list (list Z))
+Fixpoint until_loop (p : bool) (fuel : nat) (cn : nat) (s : st) (d : list Z) (m : Z) (off : nat) (fs : list (list Z))
   : st * res * list Z :=
   match fuel with
   | O => (s, RFuel, [])
@@ -147,6 +173,7 @@ Fixpoint until_loop (p : bool) (fuel : nat) (s : st) (d : list Z) (m : Z) (off :
       | Some i => (mk (knd s) (skipn (i + length d) (buf s)) (src s), RBytes (firstn i (buf s)), [])
       | None =>
           if (m <=? Z.of_nat (length (buf s)))%Z then (s, RNotFound, []) else
+          if hit cn then (s, RCancelled, []) else
           let fd := hd [] fs in                          (* feed_data(fd) by another task during the wait *)
           let b1 := buf s ++ fd in
           match pull (knd s) default_max (src s) with    (* receive() without argument, also on a byte stream *)
@@ -154,7 +181,7 @@ Fixpoint until_loop (p : bool) (fuel : nat) (s : st) (d : list Z) (m : Z) (off :
           | Some (c, r) =>
               (* offset = max(searched_size - delimiter_size + 1, 0): truncated subtraction on nat *)
               let '(s', out, lg) :=
-                until_loop p f (mk (knd s) (b1 ++ c) r) d m
+                until_loop p f (pred cn) (mk (knd s) (b1 ++ c) r) d m
                            (length (if p then b1 else buf s) + 1 - length d) (tl fs) in
               (s', out, fd ++ c ++ lg)
           end
@@ -163,10 +190,13 @@ Fixpoint until_loop (p : bool) (fuel : nat) (s : st) (d : list Z) (m : Z) (off :
 
 Definition step_gen (p : bool) (s : st) (o : op) : st * res * list Z :=
   match o with
-  | Receive n => do_receive p s n
-  | Exactly n => do_exactly p s n
-  | Until d m fs => until_loop p (fuel_of s) s d m 0 fs
+  | Receive n => do_receive p 0 s n
+  | Exactly n => do_exactly p 0 s n
+  | Until d m fs => until_loop p (fuel_of s) 0 s d m 0 fs
   | Feed d => (mk (knd s) (buf s ++ d) (src s), RNone, d)
+  | CReceive k n => match k with O => (s, RCancelled, []) | _ => do_receive p k s n end
+  | CExactly k n => match k with O => (s, RCancelled, []) | _ => do_exactly p k s n end
+  | CUntil k d m fs => match k with O => (s, RCancelled, []) | _ => until_loop p (fuel_of s) k s d m 0 fs end
   end.
 
 Definition step_log : st -> op -> st * res * list Z := step_gen false.     (* HEAD *)
@@ -178,7 +208,7 @@ Definition init (k : kind) (chunks : list (list Z)) : st := mk k [] chunks.
 (* ---- specification vocabulary (used by the theorems; not part of the executable path) ---- *)
 
 (* receive_until without the offset optimisation: always searches the whole buffer *)
-Fixpoint until_naive (fuel : nat) (s : st) (d : list Z) (m : Z) (fs : list (list Z)) : st * res * list Z :=
+Fixpoint until_naive (fuel : nat) (cn : nat) (s : st) (d : list Z) (m : Z) (fs : list (list Z)) : st * res * list Z :=
   match fuel with
   | O => (s, RFuel, [])
   | S f =>
@@ -186,10 +216,11 @@ Fixpoint until_naive (fuel : nat) (s : st) (d : list Z) (m : Z) (fs : list (list
       | Some i => (mk (knd s) (skipn (i + length d) (buf s)) (src s), RBytes (firstn i (buf s)), [])
       | None =>
           if (m <=? Z.of_nat (length (buf s)))%Z then (s, RNotFound, []) else
+          if hit cn then (s, RCancelled, []) else
           match pull (knd s) default_max (src s) with
           | None => (mk (knd s) (buf s ++ hd [] fs) (src s), RIncomplete, hd [] fs)
           | Some (c, r) =>
-              let '(s', out, lg) := until_naive f (mk (knd s) ((buf s ++ hd [] fs) ++ c) r) d m (tl fs) in
+              let '(s', out, lg) := until_naive f (pred cn) (mk (knd s) ((buf s ++ hd [] fs) ++ c) r) d m (tl fs) in
               (s', out, hd [] fs ++ c ++ lg)
           end
       end
@@ -220,11 +251,12 @@ Definition occurs (d l : list Z) : Prop := exists i, occurs_at d l i.
 (* bytes removed from the front of the logical stream by a call: its result plus, for receive_until, the delimiter *)
 Definition consumed_of (o : op) (r : res) : list Z :=
   match r with
-  | RBytes b => b ++ match o with Until d _ _ => d | _ => [] end
+  | RBytes b => b ++ match o with Until d _ _ | CUntil _ d _ _ => d | _ => [] end
   | _ => []
   end.
 
-Definition failed (r : res) : Prop := r = REnd \/ r = RIncomplete \/ r = RNotFound \/ r = RValueError.
+Definition failed (r : res) : Prop :=
+  r = REnd \/ r = RIncomplete \/ r = RNotFound \/ r = RValueError \/ r = RCancelled.
 
 Fixpoint consumed_run (s : st) (ops : list op) : list Z :=
   match ops with
@@ -240,13 +272,17 @@ Fixpoint arrived_run (s : st) (ops : list op) : list Z :=
 
 (* ops that feed nothing *)
 Definition no_feed (o : op) : bool :=
-  match o with Feed _ => false | Until _ _ fs => match fs with [] => true | _ => false end | _ => true end.
+  match o with
+  | Feed _ => false
+  | Until _ _ fs | CUntil _ _ _ fs => match fs with [] => true | _ => false end
+  | _ => true
+  end.
 Definition chunks_nonempty (l : list (list Z)) : Prop := forall c, In c l -> c <> [].
 
 (* ---- observable output of a step: code, result bytes, the `buffer` property ---- *)
 Definition res_code (r : res) : Z :=
   match r with
-  | RBytes _ => 0 | REnd => 1 | RIncomplete => 2 | RNotFound => 3 | RValueError => 4 | RNone => 5 | RFuel => 9
+  | RBytes _ => 0 | REnd => 1 | RIncomplete => 2 | RNotFound => 3 | RValueError => 4 | RNone => 5 | RCancelled => 6 | RFuel => 9
   end%Z.
 Definition res_bytes (r : res) : list Z := match r with RBytes b => b | _ => [] end.
 
@@ -255,7 +291,8 @@ Definition observe (s : st) (r : res) : list Z :=
 
 (* ---- codec: case = kind :: nchunks :: (len :: bytes)* :: ops
         op = 0 n | 1 n | 2 m len delimiter-bytes | 3 len bytes | 4 m len delimiter-bytes nfeeds (len :: bytes)*
-        (op 2 = receive_until without feeds during the call; cases written before op 4 existed decode unchanged) ---- *)
+           | 5 k n | 6 k n | 7 k m len delimiter-bytes nfeeds (len :: bytes)*   (cancelled receive / exactly / until)
+        (op 2 = receive_until without feeds during the call; cases written before ops 4-7 existed decode unchanged) ---- *)
 Definition take_list (l : list Z) : list Z * list Z :=
   match l with
   | [] => ([], [])
@@ -282,6 +319,14 @@ Fixpoint decode_ops (fuel : nat) (l : list Z) : list op :=
           let '(d, r') := take_list r in
           match r' with
           | nf :: r'' => let '(fs, r3) := decode_chunks (zn nf) r'' in Until d m fs :: decode_ops f r3
+          | [] => []
+          end
+      | 5%Z :: k :: n :: r => CReceive (zn k) n :: decode_ops f r
+      | 6%Z :: k :: n :: r => CExactly (zn k) n :: decode_ops f r
+      | 7%Z :: k :: m :: r =>
+          let '(d, r') := take_list r in
+          match r' with
+          | nf :: r'' => let '(fs, r3) := decode_chunks (zn nf) r'' in CUntil (zn k) d m fs :: decode_ops f r3
           | [] => []
           end
       | _ => []
